@@ -16,7 +16,7 @@ import core
 LICS = ["MIT", "0BSD", "ISC", "Zlib", "Apache-2.0", "CC0-1.0", "GPL-3.0-or-later", "BSD-3-Clause",
         "MPL-2.0", "EUPL-1.2", "Unlicense", "AGPL-3.0-only", "LGPL-2.1-or-later", "CC-BY-4.0",
         "BSL-1.0", "Artistic-2.0", "ECL-2.0", "OFL-1.1", "PostgreSQL", "Vim", "W3C", "X11", "curl", "WTFPL"]
-PREFIX = {"bare": "", "hash": "# ", "slashes": "// ", "tight": "", "file": "# ", "filepoison": "# ", "skip": "# "}
+PREFIX = {"bare": "", "hash": "# ", "slashes": "// ", "tight": "", "file": "# ", "filepoison": "# ", "skip": "# ", "sidecar": ""}
 PAD = "x" * 4200
 S, E = "REUSE-IgnoreStart", "REUSE-IgnoreEnd"  # REUSE-IgnoreStart (keeps this file lint-clean)
 
@@ -35,12 +35,13 @@ def tok_text(tok: str, i: int, plain: bool = False) -> str:
     if tok == "T":
         # plain text - also when it looks like a marker in another capitalisation, or holds letters whose lower-case form
         # is longer than the letter (U+0130)
-        if plain and i % 4 == 2:
+        if plain and i % 6 == 2:
             # inside a licence value the third-party expression parser garbles such letters (differently for different
             # runs of blanks): there the look-alike stays ASCII, so that full text and twin are compared on what reuse does
             return f"Reuse-IgnoreEnd{i} Ibrahim"
+        # ... or is one of the snippet markers (which say how much of a file is read, not what a block hides)
         return [f"text{i}", f"see https://reuse.software/faq/#reuse-ignorestart{i}", f"Reuse-IgnoreEnd{i} \u0130brahim \u0130nan\u00e7 \u0130\u015f\u0131k",
-                f"REUSE-IGNORESTART{i} heading"][i % 4]
+                f"REUSE-IGNORESTART{i} heading", "SPDX-SnippetBegin", "SPDX-SnippetEnd"][i % 6]
     raise ValueError(tok)
 
 
@@ -129,13 +130,17 @@ def observe(text: str, toks: list) -> dict:
     return o
 
 
-def observe_file(text: str, toks: list, poison: bool = False) -> dict:
+def observe_file(text: str, toks: list, poison: bool = False, sidecar: bool = False) -> dict:
     """The same observation through the CLI: a one-file project read by `reuse lint --json`.
     The file ends with an SPDX snippet marker, so the whole file is to be scanned."""
     import shutil
     d = core.scratch_dir("c12-")
     try:
-        (d / "f.py").write_text(("# SPDX-License-Identifier: MIT OR\n" if poison else "") + text + "\n# SPDX-SnippetBegin\n")
+        if sidecar:      # the text is the .license sibling of a file that holds nothing itself
+            (d / "f.py").write_bytes(b"\x00\x01\x02 binary payload \xff\xfe" * 8)
+            (d / "f.py.license").write_text(text + "\nSPDX-SnippetBegin\n")
+        else:
+            (d / "f.py").write_text(("# SPDX-License-Identifier: MIT OR\n" if poison else "") + text + "\n# SPDX-SnippetBegin\n")
         r = core.run_reuse(["--root", str(d), "--no-multiprocessing", "lint", "--json"])
         if r["exc"] or r["exit"] not in (0, 1):
             return {"err": True, "lic": [], "cop": [], "con": [], "raw": ["CRASH:" + str(r["exc"] or r["exit"])[-200:]], "has": "na"}
@@ -192,6 +197,8 @@ def replay_case(case: dict) -> dict:
         o, t = observe_file(full, toks), observe_file(twin, toks)
     elif form == "skip":
         o, t = observe_skip(full), observe_skip(twin)
+    elif form == "sidecar":
+        o, t = observe_file(full, toks, sidecar=True), observe_file(twin, toks, sidecar=True)
     else:
         o, t = observe(full, toks), observe(twin, toks)
     return {"tid": case["tid"], "toks": toks, "form": form, "visUsed": vis, "obs": o, "twin": t,
@@ -237,6 +244,8 @@ def run(ctx: core.Ctx) -> int:
         form = rnd.choice(["bare", "hash", "slashes", "tight", "tight"]) if j % 4 else ("file" if j % 8 else "filepoison")
         if j % 16 == 5:
             form = "skip"
+        elif j % 16 == 9:
+            form = "sidecar"
         if form in ("file", "filepoison") and "T" not in toks:
             toks[rnd.randrange(len(toks))] = "T"
             j2 = None
